@@ -376,9 +376,6 @@ impl V {
                 }
             }
         }
-        if alt_inside_partial(pat, false) {
-            return Err("alternation inside a partial pattern (open finding F37)".into());
-        }
         if alt_of_structured(pat) {
             return Err("alternation whose alternatives are tuple patterns with fields (open finding)".into());
         }
@@ -532,12 +529,22 @@ impl V {
                             }
                         }
                         Field::Val(l, c) => {
-                            if c.pat.is_some() {
-                                return Err("binding chain inside a tuple field".into());
+                            // a field-level binding `x = chain` (it binds in the ENCLOSING scope; the
+                            // field's value is the verdict): bare binders only
+                            if !matches!(&c.pat, None | Some(Pat::Bind(_))) {
+                                return Err("binding chain with a non-binder pattern inside a tuple field".into());
                             }
                             env.kill_pending();
                             self.in_field.set(self.in_field.get() + 1);
-                            let r = self.terms(env, tin, &c.terms, false, cx, fs);
+                            let r = if c.pat.is_some() {
+                                if matches!(c.terms.as_slice(), [Term::Fn { .. }]) {
+                                    self.in_field.set(self.in_field.get() - 1);
+                                    return Err("function definition inside a tuple field".into());
+                                }
+                                self.chain(env, tin, c, false, cx, fs).map(|(ty, _, f)| (ty, f))
+                            } else {
+                                self.terms(env, tin, &c.terms, false, cx, fs)
+                            };
                             self.in_field.set(self.in_field.get() - 1);
                             let (ty, _) = r?;
                             env.kill_pending();
@@ -931,14 +938,6 @@ fn alt_of_structured(p: &Pat) -> bool {
     }
 }
 
-fn alt_inside_partial(p: &Pat, inside: bool) -> bool {
-    match p {
-        Pat::Alt(ps) => inside || ps.iter().any(|q| alt_inside_partial(q, inside)),
-        Pat::Tup(_, fs) => fs.iter().any(|(_, q)| alt_inside_partial(q, inside)),
-        Pat::Part(_, fs) => fs.iter().any(|(_, q)| q.as_ref().map(|q| alt_inside_partial(q, true)).unwrap_or(false)),
-        _ => false,
-    }
-}
 
 fn cond_match_count(cond: &[Chain]) -> usize {
     cond.iter().map(|c| c.pat.is_some() as usize + c.terms.iter().filter(|t| matches!(t, Term::Match(_))).count()).sum()
